@@ -158,8 +158,9 @@ func (w *World) simStep(d0 *Dump, op *OpSpec) (string, *Dump) {
 func (w *World) Linearize(pre *Dump, batch []OpSpec, lanes [][]int, classes []string, final *Dump) ([]int, bool) {
 	pos := make([]int, len(lanes))
 	var order []int
-	budget := 200000
+	budget := 400000
 	target := final.String()
+	dead := map[string]bool{} // (positions, state) from which no completion exists
 	var dfs func(d *Dump) bool
 	dfs = func(d *Dump) bool {
 		if len(order) == len(batch) {
@@ -169,6 +170,15 @@ func (w *World) Linearize(pre *Dump, batch []OpSpec, lanes [][]int, classes []st
 		if budget < 0 {
 			return false
 		}
+		memo := fmt.Sprint(pos) + d.String()
+		if dead[memo] {
+			return false
+		}
+		defer func() {
+			if budget >= 0 {
+				dead[memo] = true
+			}
+		}()
 		for g := range lanes {
 			if pos[g] >= len(lanes[g]) {
 				continue
